@@ -23,7 +23,7 @@ from __future__ import annotations
 
 from symx import Violation
 from symx.obligation import Obligation
-from props.io_common import lazy_check
+from props.io_common import lazy_check, detach
 
 LEVEL = "exploration"
 
@@ -44,6 +44,7 @@ def _proto():
     import inspect
     import openpectus.protocol.serialization as S
     import openpectus.protocol.messages as M
+    import fastapi_websocket_rpc.schemas  # noqa: F401  (the rpc transport's own message schema; imported once, outside tracing)
     nss = list(S._message_namespaces)
     names = list(S._message_namespace_names)
     routes = []          # (namespace name, attribute name, class)
@@ -146,8 +147,11 @@ def _minimal_kwargs(cls):
 
 
 class _Gen:
-    """Solver-guided generator: every alternative of a declared type is a solver choice; scalars stay solver
-    variables until they are handed to pydantic-core, where they are concretised."""
+    """Solver-guided generator.  `value()` walks a declared type making one solver choice per alternative
+    (union member, literal, container size, which nested field is varied, numeric region) and returns a
+    *thunk*; scalars stay solver variables.  The thunks are called after the path has been detached from
+    the search tree: there the solver's model is concretised (one witness per explored path) and the
+    concrete value is handed to pydantic-core."""
 
     def __init__(self, sym, tier):
         self.sym = sym
@@ -162,12 +166,14 @@ class _Gen:
             args = typing.get_args(tp)
             return self.value(args[sym.index(path + "|alt", len(args))], path, owner)
         if tp is type(None) or tp is typing.Any:
-            return None
+            return lambda: None
         if org is typing.Literal:
             args = typing.get_args(tp)
-            return args[sym.index(path + "|lit", len(args))]
+            lit = args[sym.index(path + "|lit", len(args))]
+            return lambda: lit
         if tp is bool:
-            return True if sym.bool(path + "|bool") else False
+            b = True if sym.bool(path + "|bool") else False
+            return lambda: b
         if tp is int:
             return self._int(path)
         if tp is float:
@@ -176,26 +182,34 @@ class _Gen:
             return self._str(path)
         if org in (list, typing.List) or tp is list:
             (et,) = typing.get_args(tp) or (typing.Any,)
-            return self._seq(et, path, owner)
+            items = self._seq(et, path, owner)
+            return lambda: [t() for t in items]
         if org in (set, frozenset) or tp is set:
             (et,) = typing.get_args(tp) or (typing.Any,)
-            return set(self._seq(et, path, owner))
+            items = self._seq(et, path, owner)
+            return lambda: set(t() for t in items)
         if org is dict or tp is dict:
             kt, vt = typing.get_args(tp) or (typing.Any, typing.Any)
             mode = sym.index(path + "|dict", 4)
             if mode == 0:
-                return {}
+                return lambda: {}
             if mode == 1:
-                return {self.value(kt, path + ".key", owner): _minimal(vt)}
+                k = self.value(kt, path + ".key", owner)
+                return lambda: {k(): _minimal(vt)}
             if mode == 2:
-                return {_minimal(kt): self.value(vt, path + ".val", owner)}
+                v = self.value(vt, path + ".val", owner)
+                return lambda: {_minimal(kt): v()}
             k = self.value(kt, path + ".key", owner)
-            d = {_minimal(kt): _minimal(vt)}
-            d[k] = _minimal(vt)
-            return d
+
+            def two():
+                d = {_minimal(kt): _minimal(vt)}
+                d[k()] = _minimal(vt)
+                return d
+            return two
         if inspect.isclass(tp) and issubclass(tp, enum.Enum):
             members = list(tp)
-            return members[sym.index(path + "|enum", len(members))]
+            m = members[sym.index(path + "|enum", len(members))]
+            return lambda: m
         if _is_model(tp):
             return self.model(tp, path)
         raise NotImplementedError(f"no generator for declared type {tp!r}")
@@ -203,12 +217,18 @@ class _Gen:
     def model(self, cls, path):
         """kwargs of a nested model: one field explored (solver chooses which), the others minimal / defaulted."""
         fields = list(cls.model_fields.items())
-        kwargs = _minimal_kwargs(cls)
         k = self.sym.index(path + "|field", len(fields) + 1)
+        name, t = None, None
         if k < len(fields):
             name, f = fields[k]
-            kwargs[name] = self.value(f.annotation, path + "." + name, (cls.__name__, name))
-        return kwargs
+            t = self.value(f.annotation, path + "." + name, (cls.__name__, name))
+
+        def make():
+            kwargs = _minimal_kwargs(cls)
+            if name is not None:
+                kwargs[name] = t()
+            return kwargs
+        return make
 
     def _seq(self, et, path, owner):
         n = self.sym.index(path + "|len", 3)
@@ -216,7 +236,7 @@ class _Gen:
             return []
         if n == 1:
             return [self.value(et, path + "[0]", owner)]
-        return [_minimal(et), self.value(et, path + "[1]", owner)]
+        return [lambda: _minimal(et), self.value(et, path + "[1]", owner)]
 
     def _int(self, path):
         sym = self.sym
@@ -229,7 +249,7 @@ class _Gen:
             if v > 2**53:
                 if v > 2**63:
                     pass
-        return sym.realize(v)
+        return lambda: int(sym.realize(v))
 
     def _float(self, path, owner):
         sym = self.sym
@@ -241,18 +261,19 @@ class _Gen:
             g = sym.grid(path + "|grid", -2**30, 2**30, 64)
             if g < 0:
                 pass
-            return float(sym.realize(g))
+            return lambda: float(sym.realize(g))
         if k == "int-valued":
-            return sym.realize(sym.int(path + "|fint", -1000, 1000))
-        return k
+            n = sym.int(path + "|fint", -1000, 1000)
+            return lambda: int(sym.realize(n))
+        return lambda: k
 
     def _str(self, path):
         sym = self.sym
         k = sym.index(path + "|skind", len(STR_CATALOGUE) + 1)
         if k < len(STR_CATALOGUE):
-            return STR_CATALOGUE[k]
+            return lambda: STR_CATALOGUE[k]
         s = sym.str(path + "|str", 3 if self.thorough else 1, 'a"\\1')
-        return sym.realize(s)
+        return lambda: str(sym.realize(s))
 
 
 # ------------------------------------------------------------------------------------------------------
@@ -346,7 +367,7 @@ def _roundtrip_failures(msg, where: str):
         d = _diff(before, back.model_dump())
         if d is not None:
             out.append((f"roundtrip|{tr}|{what}|{d[1]}", f"{_cls_key(cls)} [{where}]: field {d[0].lstrip('.')} differs after the round trip "
-                        f"({_leaf(before, d[0])!r} -> {_leaf(back.model_dump(), d[0])!r})"))
+                        f"({_leaf(before, d[0])} -> {_leaf(back.model_dump(), d[0])})"))
     return out
 
 
@@ -356,26 +377,30 @@ def _leaf(dump, path):
     try:
         for part in re.findall(r"\.([^.\[]+)|\[(\d+)\]", path):
             if part[0] == "<keys>":
-                return sorted(map(repr, cur.keys()))
+                return "keys " + ", ".join(sorted(map(repr, cur.keys())))
             if part[0] == "<len>":
-                return len(cur)
+                return "length " + str(len(cur))
             cur = cur[part[0]] if part[0] else cur[int(part[1])]
-        return cur
+        return repr(cur)
     except Exception:
         return "?"
 
 
 def harness_values(sym):
     from pydantic import ValidationError
-    p = _proto()
+    with sym.concrete():
+        p = _proto()
     cls = next(c for c in p["classes"] if _cls_key(c) == sym.shard["cls"])
     fname = sym.shard["field"]
     gen = _Gen(sym, sym.shard.get("tier", "quick"))
+    thunk = None
+    if fname != "<defaults>":
+        thunk = gen.value(cls.model_fields[fname].annotation, fname, (cls.__name__, fname))
+    detach(sym)          # from here on solver values are concretised: one witness per explored path
     with sym.concrete():
         kwargs = _minimal_kwargs(cls)
-    if fname != "<defaults>":
-        kwargs[fname] = gen.value(cls.model_fields[fname].annotation, fname, (cls.__name__, fname))
-    with sym.concrete():
+        if thunk is not None:
+            kwargs[fname] = thunk()
         try:
             msg = cls(**kwargs)
         except ValidationError:
@@ -510,7 +535,8 @@ def _type_catalogue(k):
 
 
 def harness_envelope(sym):
-    p = _proto()
+    with sym.concrete():
+        p = _proto()
     S = p["S"]
     from openpectus.protocol.exceptions import ProtocolDeserializationException
     from pydantic import BaseModel
